@@ -280,6 +280,19 @@ Proof.
     destruct (check_logs (l_index l0) rest) as [res n]. cbn [fst] in *. exact IH.
 Qed.
 
+(* total encoded size of a batch, as StoreLogs accounts it *)
+Definition bytes_sum (ls : list log) : N := fold_right (fun l a => enc_len l + a) 0 ls.
+
+Lemma check_logs_snd : forall r i, fst (check_logs i r) = ROk ->
+  snd (check_logs i r) = bytes_sum r mod two64.
+Proof.
+  induction r as [|l r IH]; intros i; [reflexivity|]. cbn [check_logs bytes_sum fold_right].
+  destruct (_ && _); [discriminate|]. unfold enc_len at 1.
+  destruct (encode_log l) as [b|]; [|discriminate].
+  specialize (IH (l_index l)). destruct (check_logs (l_index l) r) as [res n]. cbn [fst snd] in *.
+  intros Hr. rewrite (IH Hr). fold (bytes_sum r). apply N.add_mod_idemp_r. unfold two64. lia.
+Qed.
+
 (* the state after a successful append to the tail *)
 Definition appended (w : wal) (tw' : wseg) : wal :=
   {| st_next_id := st_next_id w; st_segs := st_segs w; st_tail := Some tw';
@@ -411,6 +424,7 @@ Lemma store_go_ok c L l0 rest w e ss t tw :
   exists r w' e',
     store_go L ls w e = (r, w', e') /\ e_fault e' = None /\
     dk_stable (e_disk e') = dk_stable (e_disk e) /\ st_next_id w' = st_next_id w /\
+    e_m e' = (if good then inc_write (bytes_sum ls mod two64) (llen ls) (e_m e) else e_m e) /\
     if good then
       r = ROk /\ exists tw', WInvS c w' (e_disk e') ss t tw' /\
       abs w' (e_disk e') =
@@ -421,7 +435,8 @@ Lemma store_go_ok c L l0 rest w e ss t tw :
 Proof.
   intros ls good Hc He HI His Hok Hfs HL Hgood.
   assert (Hfst := check_logs_fst L l0 rest Hok HL). fold ls good in Hfst.
-  unfold store_go. destruct (check_logs L ls) as [res nb]. cbn [fst] in Hfst. subst res.
+  assert (Hsnd := check_logs_snd ls L).
+  unfold store_go. destruct (check_logs L ls) as [res nb]. cbn [fst snd] in Hfst, Hsnd. subst res.
   destruct good eqn:Eg.
   - assert (HI0 := HI).
     destruct HI as (Hcl & Hfa & Hmeta & Hini & Hfr & Hsegs & Htail & HS & HT & HL' & Hro).
@@ -432,12 +447,15 @@ Proof.
       as (tw' & e' & Happ & He' & Hm' & HT' & Hn' & Hme & Hst & Hin & Hlk & Hvis).
     rewrite Happ.
     eexists _, _, _. split; [reflexivity|]. split; [exact He'|]. split; [exact Hst|].
-    split; [reflexivity|]. split; [reflexivity|]. exists tw'.
+    split; [reflexivity|]. split; [cbn [add_m with_m e_m]; rewrite Hm', (Hsnd eq_refl); reflexivity|].
+    split; [reflexivity|]. exists tw'.
     change (e_disk (add_m e' (inc_write nb (llen ls)))) with (e_disk e').
     destruct (append_state c w (e_disk e) (e_disk e') ss t tw tw' ls) as [G1 G2]; auto; [discriminate|].
     rewrite Htail in G2. split; assumption.
   - eexists _, _, _. split; [reflexivity|]. repeat split; auto.
 Qed.
+
+Definition is_nil {A} (l : list A) : bool := match l with [] => true | _ => false end.
 
 Lemma WInvS_rotate_none c w d ss t tw : WInvS c w d ss t tw -> ws_index_start tw = 0 -> st_rotate w = None.
 Proof. intros (_ & _ & _ & _ & _ & _ & _ & _ & _ & _ & Hro) H. rewrite Hro, H. reflexivity. Qed.
@@ -478,8 +496,9 @@ Lemma store_logs_ok c w e ss t tw ls :
     dk_stable (e_disk e') = dk_stable (e_disk e) /\
     st_next_id w <= st_next_id w' /\ st_next_id w' <= st_next_id w + 1 /\
     match spec_store (abs w (e_disk e)) ls with
-    | Some a' => r = ROk /\ abs w' (e_disk e') = a'
-    | None => res_class r = RErrOther /\ abs w' (e_disk e') = abs w (e_disk e)
+    | Some a' => r = ROk /\ abs w' (e_disk e') = a' /\
+                 e_m e' = (if is_nil ls then e_m e else inc_write (bytes_sum ls mod two64) (llen ls) (e_m e))
+    | None => res_class r = RErrOther /\ abs w' (e_disk e') = abs w (e_disk e) /\ e_m e' = e_m e
     end.
 Proof.
   intros Hc He HI His Hnid Hok Hfs.
@@ -487,7 +506,7 @@ Proof.
   destruct (abs_props _ _ _ _ _ _ HI) as (Hsf & Hsl & Hemp & Haok & Hne).
   destruct HI as (Hcl & Hfa & Hmeta & Hini & Hfr & Hsegs & Htail & HS & HT & HL & Hro).
   destruct ls as [|l0 rest].
-  { unfold store_logs. rewrite Hcl. exists ROk, w, e. cbn [spec_store].
+  { unfold store_logs. rewrite Hcl. exists ROk, w, e. cbn [spec_store is_nil].
     repeat split; auto; try lia. exists ss, t, tw. exact HI0. }
   assert (Hti : tail_info (st_segs w) = Some t) by (rewrite Hsegs; apply tail_info_snoc).
   rewrite (store_logs_unfold c w l0 rest e t Hcl Hfa Hti). cbv zeta.
@@ -514,13 +533,13 @@ Proof.
     destruct (last_zero _ _ _ _ _ HS HT HL HL0) as [-> Hn].
     destruct Hl0 as (_ & Hi1 & Hi2 & _).
     destruct (reset_first_ok c w e t tw (l_index l0) Hc He HI0 His Hn Hnid Hi1 ltac:(lia) Enb)
-      as (w1 & e1 & Hrf & He1 & HI1 & Hst1 & Hid1 & _).
+      as (w1 & e1 & Hrf & He1 & HI1 & Hst1 & Hid1 & Hm1).
     rewrite Hrf.
     set (si := new_segment c (st_next_id w) (l_index l0)) in *.
     destruct (store_go_ok c L l0 rest w1 e1 [] si (new_wseg si) Hc He1 HI1 eq_refl Hok Hfs HL1)
-      as (r & w2 & e2 & Hgo & He2 & Hst2 & Hid2 & Hres).
+      as (r & w2 & e2 & Hgo & He2 & Hst2 & Hid2 & Hm2 & Hres).
     { intros _. cbn [si new_segment si_base new_wseg ws_n]. lia. }
-    fold ls in Hgo, Hres. rewrite Hgo. rewrite EL in *. cbn [N.eqb orb andb] in Hres |- *.
+    fold ls in Hgo, Hres, Hm2. rewrite Hgo. rewrite EL in *. cbn [N.eqb orb andb] in Hres, Hm2 |- *.
     assert (Ha : a = sl_empty).
     { unfold a. rewrite (abs_eq _ _ _ _ _ _ HI0). fold L. rewrite EL. reflexivity. }
     assert (Ha1 : abs w1 (e_disk e1) = sl_empty) by apply (abs_empty_tail _ _ _ _ _ _ HI1 eq_refl).
@@ -531,18 +550,19 @@ Proof.
     { intros s n [<-|[]] [<-|[]]. apply fname_neq_base. cbn. exact Enb. }
     destruct (consecutive (l_index l0) ls) eqn:Econs.
     + destruct Hres as (-> & tw2 & HI2 & Habs2).
-      destruct (WInvS_delete_files c w2 e2 [] si tw2 [name_of t] HI2 He2 Hdn) as (G1 & G2 & G3 & G4 & _).
+      destruct (WInvS_delete_files c w2 e2 [] si tw2 [name_of t] HI2 He2 Hdn) as (G1 & G2 & G3 & G4 & G5).
       eexists _, _, _. split; [reflexivity|]. split; [exact G3|]. split; [exists [], si, tw2; exact G1|].
       split; [congruence|]. split; [lia|]. split; [lia|]. split; [reflexivity|].
-      rewrite G2, Habs2, HL1', Ha1, Ha. reflexivity.
+      split; [rewrite G2, Habs2, HL1', Ha1, Ha; reflexivity|].
+      rewrite G5, Hm2, Hm1. reflexivity.
     + destruct Hres as (-> & -> & ->).
-      destruct (WInvS_delete_files c w1 e1 [] si _ [name_of t] HI1 He1 Hdn) as (G1 & G2 & G3 & G4 & _).
+      destruct (WInvS_delete_files c w1 e1 [] si _ [name_of t] HI1 He1 Hdn) as (G1 & G2 & G3 & G4 & G5).
       eexists _, _, _. split; [reflexivity|]. split; [exact G3|]. split; [exists [], si, (new_wseg si); exact G1|].
       split; [congruence|]. split; [lia|]. split; [lia|]. split; [reflexivity|].
-      rewrite G2, Ha1, Ha. reflexivity.
+      split; [rewrite G2, Ha1, Ha; reflexivity|]. rewrite G5. exact Hm1.
   - (* append to the current tail *)
     destruct (store_go_ok c L l0 rest w e ss t tw Hc He HI0 His Hok Hfs HL1)
-      as (r & w2 & e2 & Hgo & He2 & Hst2 & Hid2 & Hres).
+      as (r & w2 & e2 & Hgo & He2 & Hst2 & Hid2 & Hm2 & Hres).
     { intros Hg. apply andb_true_iff in Hg. destruct Hg as [Hg _].
       assert (HLi : L = last_index (ss ++ [t]) (Some tw)) by (unfold L; rewrite Hsegs, Htail; reflexivity).
       rewrite (last_index_inv c (e_disk e) ss _ _ HT) in HLi.
@@ -552,11 +572,11 @@ Proof.
         destruct (last_zero _ _ _ _ _ HS HT HL HL0) as [_ Hn]. lia.
       - cbn [orb] in Hg. apply N.eqb_eq in Hg. assert (Hb : 1 <= si_base t) by apply HT.
         destruct (N.eqb_spec (ws_n tw) 0); [|lia]. destruct ss; lia. }
-    fold ls in Hgo, Hres. rewrite Hgo.
+    fold ls in Hgo, Hres, Hm2. rewrite Hgo.
     destruct (((L =? 0) || (l_index l0 =? L + 1)) && consecutive (l_index l0) ls) eqn:Eg.
     + destruct Hres as (-> & tw2 & HI2 & Habs2).
       eexists _, _, _. split; [reflexivity|]. split; [exact He2|]. split; [exists ss, t, tw2; exact HI2|].
-      split; [exact Hst2|]. split; [lia|]. split; [lia|]. split; [reflexivity|].
+      split; [exact Hst2|]. split; [lia|]. split; [lia|]. split; [reflexivity|]. split; [|exact Hm2].
       rewrite Habs2. fold L a. f_equal.
       destruct (N.eqb_spec L 0) as [EL|EL].
       * cbn [andb] in Ereset. apply negb_false_iff in Ereset. apply N.eqb_eq in Ereset. congruence.
